@@ -20,7 +20,7 @@
 typedef struct {
     char id[64], gen[16], out[512];
     int n, P, ps, relax, maxsuper, pert, order, dens, lowfill, kl, ku, vstyle, full, timeout, nrhs, last, fulldiag;
-    int refact, dyn, nzc, zc[64]; long lwork; char focus[32]; int focuspct, focusus; int usepr, npermr, permr[256], zd, fill6, fill7, fill8;
+    int refact, dyn, sym, nzc, zc[64]; long lwork; char focus[32]; int focuspct, focusus; int usepr, npermr, permr[256], zd, fill6, fill7, fill8;
     unsigned long seed; double u; int par[4096]; int npar; char patstr[4096];
 } job_t;
 
@@ -57,6 +57,7 @@ static void parse_job(char *line, job_t *J)
 	else if (!strcmp(tok, "pat")) strncpy(J->patstr, v, 4095);
 	else if (!strcmp(tok, "refact")) J->refact = atoi(v);
 	else if (!strcmp(tok, "dyn")) J->dyn = atoi(v);
+	else if (!strcmp(tok, "sym")) J->sym = atoi(v);
 	else if (!strcmp(tok, "usepr")) J->usepr = atoi(v);
 	else if (!strcmp(tok, "zd")) J->zd = atoi(v);
 	else if (!strcmp(tok, "fill6")) J->fill6 = atoi(v);
@@ -121,6 +122,10 @@ static int run_job(job_t *J)
     if (J->lwork > 0) work = malloc(J->lwork);
     if (J->usepr && J->npermr == n) for (i = 0; i < n; ++i) perm_r[i] = J->permr[i];
     PG(gstrf_init)(J->P, DOFACT, NOTRANS, NO, J->ps, J->relax, J->u, (J->usepr && !J->refact) ? YES : NO, 0.0, perm_c, perm_r, work, J->lwork, &A, &AC, &o, &G);
+    if (J->sym) {      /* symmetric mode as the expert driver sets it up: orderings / column counts of A'+A */
+	Destroy_CompCol_Permuted(&AC);      /* etree, colcnt_h, part_super_h were allocated by p?gstrf_init and are filled again */
+	o.SymmetricMode = YES; sp_colorder(&A, perm_c, &o, &AC);
+    }
     if (J->refact) {   /* first factorization unrecorded, then new values on the same pattern and refactor */
 	PG(gstrf)(&o, &AC, perm_r, &L, &U, &G, &info);
 	if (info != 0) { fprintf(stderr, "first factorization info %ld\n", (long) info); }
